@@ -32,6 +32,8 @@ from insights.cleaner import Cleaner            # noqa: E402
 SAFE = "gijnquvz"                 # letters that occur in no substitute vocabulary (hex, host<N>, example.com, keyword<N>)
 DELIMS = [" ", " ", " ", "\t", ",", ";", ":", "/", "(", ")", "[", "]", "=", '"', "'", "<", ">", "@", "#", "|", "!", "?", "{", "}"]
 FILL = ["gizmo", "zur", "qing", "vunj", "the", "of", "link", "up", "ERROR", "WARN", "42", "7", "x", "inet", "ether", "--", "->"]
+ADORN_PRE = ["http://", "https://", "tcp://"]
+ADORN_POST = ["/24", "/8", ":8080", ":22", "/index.html", "/32"]
 KEYWORDS = ["QUUX", "ZORGON", "JINXY", "VIZQ", "NUNQ", "GIZZ"]
 PLAIN_PATTERNS = ["GGJ", "ZZTOP", "QVINJ", "SECRETZ"]
 REGEX_PATTERNS = [("QV[[:upper:]]+NJ", "QV[A-Z]+NJ", ["QVXNJ", "QVZZINJ"]),
@@ -92,7 +94,7 @@ def clean_vocabulary(case, pool):
     short = case["fqdn"].split(".")[0]
     repl = [t for k, t in pool if k != "short"]
     secrets = [sg[2] for spec in case["specs"] for segs in spec["lines"] for sg in segs if sg[0] == "pw"]
-    texts = repl + FILL + secrets
+    texts = repl + FILL + ADORN_PRE + ADORN_POST + secrets
     exempt = set()
     if case.get("suffix_pair"):
         exempt.add(tuple(case["suffix_pair"]))
@@ -103,7 +105,7 @@ def clean_vocabulary(case, pool):
             if a != b and a in b and (a, b) not in exempt:
                 return False
     # the short name is replaced wherever it occurs
-    for b in [t for k, t in pool if k not in ("short", "fqdn")] + FILL + KEYWORDS + secrets + ["password", "example", "host", "keyword",
+    for b in [t for k, t in pool if k not in ("short", "fqdn")] + FILL + ADORN_PRE + ADORN_POST + KEYWORDS + secrets + ["password", "example", "host", "keyword",
                                                                                                 "passwordHash", "password_x", "md5"]:
         if short in b:
             return False
@@ -199,11 +201,11 @@ def _gen_case(rp, rf, rk, tier, flavour):
                     if k in ("mac",) and segs and segs[-1] == ["d", ":"]:
                         segs[-1] = ["d", " "]
                     if k == "ip" and rp.random() < 0.12:
-                        segs.append(["f", rp.choice(["http://", "https://", "tcp://"])])      # an address inside a URL
+                        segs.append(["f", rp.choice(ADORN_PRE)])      # an address inside a URL
                     segs.append([k, t])
                     if k == "ip" and rp.random() < 0.3:
                         # an address followed by a netmask, a port or a path (the adornment is not sensitive)
-                        segs.append(["f", rp.choice(["/24", "/8", ":8080", ":22", "/index.html", "/32"])])
+                        segs.append(["f", rp.choice(ADORN_POST)])
                 elif r < 0.63:
                     key = "password" + rp.choice(["", "_x", "2", "Hash"])
                     sep = rp.choice(["=", ": ", " = ", "=\"", " ", ":", "==", " --md5 "])
